@@ -34,19 +34,14 @@ theorem atomic_entry_is_record {t : CodeTable} {inst : Inst} {d' : List (List Ch
     (hw : wfB inst = true) (h : apply t inst d' = .ok out) :
     ∀ s ∈ compsOf 64 inst, ∀ e ∈ s.baseSeqs, e.len ≠ 0 →
       ∃ v, (s.pfx ++ e.name, v) ∈ out.seqs ∧ lookupLast d' (s.pfx ++ e.name).toList = some v ∧
-        v.length = e.len ∧ t.wcStr v = lookupLast d' (s.pfx ++ e.name ++ "*").toList := by
-  intro s hs e he h0
-  obtain ⟨outs, ho, rfl⟩ := apply_relations h
-  obtain ⟨o, hoo, hr⟩ := ho.of_mem_left hs
-  have hws : wfCompB s = true := List.all_eq_true.1 hw s hs
-  obtain ⟨v, w, hv, hlen, hw', hstar⟩ := hr.atoms e he h0
-  refine ⟨v, ?_, hv, hlen, by rw [hw', hstar]⟩
-  have hm := hr.atomic_entry hws he
-  have hval : atomVal d' s e = v := by
-    have : (e.len == 0) = false := by simpa using h0
-    simp only [atomVal, this, hv, Bool.false_eq_true, if_false, Option.getD_some]
-  rw [hval] at hm
-  exact List.mem_flatMap.2 ⟨o, hoo, hm⟩
+        v.length = e.len ∧ t.wcStr v = lookupLast d' (s.pfx ++ e.name ++ "*").toList :=
+  (apply_relations h).atomic_entries hw
+
+/-- (i) is sharp: finishing succeeds with output `out` exactly when the design satisfies the relations with
+    `out` — nothing else is checked, nothing less. -/
+theorem accepts_exactly_consistent {t : CodeTable} {inst : Inst} {d' : List (List Char × List Char)} {out : Out} :
+    apply t inst d' = .ok out ↔ Relations t inst d' out :=
+  apply_ok_iff_relations
 
 /-- (ii) Records that do not influence the results are ignored: if `d'` agrees with `d` on the relevant names
     (full names of the non-dummy atomic sequences, those names with `*`, structure full names) then finishing
